@@ -384,8 +384,19 @@ func Discharge(o *Obligation, outDir string, timeoutSec int, need int) {
 			pending++
 			go func(s SolverSpec) { ch <- named{s, runSolver(ctx, s, o.Text, outDir, base, timeoutSec)} }(s)
 		}
+		var grace <-chan time.Time
+		if len(results) >= 1 && len(results) < agreeNeeded {
+			grace = time.After(45 * time.Second)
+		}
 		for pending > 0 {
-			nr := <-ch
+			var nr named
+			select {
+			case nr = <-ch:
+			case <-grace:
+				// thorough tier: a second solver family gets a bounded extra time after the first answer
+				pending = 0
+				continue
+			}
 			pending--
 			if nr.r.status == "unknown" {
 				if o.Raw == "" {
@@ -406,6 +417,9 @@ func Discharge(o *Obligation, outDir string, timeoutSec int, need int) {
 				continue
 			}
 			results = append(results, nr)
+			if len(results) < agreeNeeded && grace == nil {
+				grace = time.After(45 * time.Second)
+			}
 			if len(results) >= agreeNeeded || (nr.r.status == "sat" && !o.Cover) {
 				break
 			}
